@@ -54,6 +54,8 @@ def render_expr(e):
         return _q(e[1])
     if k == 're':
         return '/' + e[1] + '/'
+    if k == 'liti':
+        return _q(e[1]) + 'i'
     if k == 'byte':
         return '0x%02X' % e[1]
     if k == 'bre':
@@ -154,6 +156,10 @@ def render_module(m, name=None, extends=None):
     if name:
         out.append('grammar ' + name + (' extends ' + extends if extends else ''))
         out.append('')
+    if m.get('single_expr') and len(m['items']) == 1 and m['items'][0].get('name') == 'start':
+        # a grammar whose body is a single expression: an implicit start rule
+        out.append(render_expr(m['items'][0]['expr']))
+        return '\n'.join(out) + '\n'
     for it in m['items']:
         out.append(render_item(it))
     return '\n'.join(out) + '\n'
@@ -163,7 +169,7 @@ def render_module(m, name=None, extends=None):
 
 def children(e):
     k = e[0]
-    if k in ('lit', 're', 'ref', 'super', 'py', 'hook', 'byte', 'bre', 'blit'):
+    if k in ('lit', 're', 'ref', 'super', 'py', 'hook', 'byte', 'bre', 'blit', 'liti'):
         return []
     if k in ('seq', 'alt', 'longest', 'skip'):
         return list(e[1:])
@@ -232,7 +238,7 @@ def nullable(e, env):
         return len(e[1]) == 0
     if k == 're':
         return RE_TABLE.get(e[1], (True, None))[0]
-    if k == 'byte':
+    if k == 'byte' or k == 'liti':
         return False
     if k == 'blit':
         return len(e[1]) == 0
@@ -297,6 +303,9 @@ class Gen:
             cands = [p for p in self.res if not (consume and RE_TABLE[p][0])]
             if cands:
                 return ['re', r.choice(cands)]
+        if r.random() < 0.08:
+            # a case-insensitive string literal (compiled as a regex)
+            return ['liti', r.choice(['ab', 'b', 'xy'])]
         return ['lit', r.choice(self.lits)]
 
     def _ref_candidates(self, rank, leftmost, consume, allow_super_of=None):
@@ -448,7 +457,7 @@ class Gen:
         """Wrap random sub-expressions with value/predicate probes."""
         r = self.rng
         k = e[0]
-        if k in ('lit', 're', 'ref', 'super', 'byte', 'bre', 'blit'):
+        if k in ('lit', 're', 'ref', 'super', 'byte', 'bre', 'blit', 'liti'):
             if r.random() < p:
                 return [r.choice(['hookv', 'hookv', 'hookp']), self.new_tag(), e]
             return e
@@ -581,6 +590,9 @@ def gen_child(rng, parent_gen, hook_p=0.4, ignore=None, allow_super=True, force=
     if start_ok and rng.random() < 0.2:
         overridden.append('start')
     n_new = rng.choice([0, 1, 1, 2])
+    if start_ok and not force and ignore is None and rng.random() < 0.06:
+        # a derived grammar that consists of a new start expression only
+        overridden, n_new = ['start'], 0
     items = []
     new_names = []
     # new rules get ranks between existing ones
@@ -655,6 +667,10 @@ def gen_child(rng, parent_gen, hook_p=0.4, ignore=None, allow_super=True, force=
         items.append(it)
         g.table[nm] = dict(g.table[nm], pattern=pat)
     spec = {'named': True, 'extends': True, 'items': items}
+    if (len(items) == 1 and items[0]['k'] == 'rule' and items[0]['name'] == 'start' and not items[0].get('ignore')
+            and items[0]['expr'][0] != 'optable' and rng.random() < 0.7):
+        spec['single_expr'] = True
+        items[0].pop('override', None)
     return spec, g
 
 
@@ -901,6 +917,8 @@ class Sampler:
         if k == 're':
             s = RE_TABLE.get(e[1], (True, ['']))[1]
             return [r.choice(s)]
+        if k == 'liti':
+            return [''.join(c.upper() if r.random() < 0.5 else c for c in e[1])]
         if k == 'byte':
             return [chr(e[1])]
         if k == 'blit':
